@@ -469,6 +469,20 @@ fn history_case(seed: u64, idx: usize, bin: &str, rt: &std::sync::Arc<tokio::run
                         if body.contains(&format!("\"{}\"", other)) {
                             viol!("usage-leaks-other-tenant", "step {}: /usage (self) for {} mentions tenant {}: {}", step, own, other, body.chars().take(300).collect::<String>());
                         }
+                        // every number in the report must be the caller's own: rows only for the caller, and
+                        // the totals equal to the caller's row (fleet-wide totals reveal other tenants' activity)
+                        let j: Value = serde_json::from_str(&body).unwrap_or(Value::Null);
+                        let rows: Vec<Value> = j["tenants"].as_array().cloned().unwrap_or_default();
+                        if rows.iter().any(|r| r["tenant_id"].as_str() != Some(own.as_str())) || rows.len() > 1 {
+                            viol!("usage-leaks-other-tenant", "step {}: /usage (self) for {} carries rows of other tenants: {}", step, own, body.chars().take(300).collect::<String>());
+                        }
+                        for key in ["query_count", "vector_count", "storage_bytes", "billable_events"] {
+                            let mine = rows.first().map(|r| r[key].as_u64().unwrap_or(0)).unwrap_or(0);
+                            let total = j["totals"][key].as_u64().unwrap_or(0);
+                            if total != mine {
+                                viol!("usage-totals-include-other-tenants", "step {}: /usage (self) for {} reports totals.{} = {} but the caller's own {} is {}", step, own, key, total, key, mine);
+                            }
+                        }
                     }
                     other => viol!("usage-self-refused", "step {}: /usage with a valid tenant key answered {:?}", step, other.map(|x| x.0)),
                 }
